@@ -85,6 +85,8 @@ func (st *state) dispatch(toks []string) (string, string) {
 		return fragOp(toks), ""
 	case "ll":
 		return llOp(toks), ""
+	case "wr":
+		return wrOp(toks), ""
 	case "watch", "feed", "replicate", "watchp", "feedp", "watchx", "unwatchx":
 		now := time.Now().UnixMilli()
 		return st.feedOp(toks), fmt.Sprintf(" now=%d", now)
